@@ -380,9 +380,10 @@ func genOp(t *rapid.T) Op {
 }
 
 func genCase(t *rapid.T) *Case {
+	nops := rapid.SampledFrom([]int{8, 8, 15, 30, 60, 90}).Draw(t, "nops") // rapid's own slice lengths are mostly short
 	return &Case{
 		Locking: rapid.Bool().Draw(t, "locking"),
-		Ops:     rapid.SliceOfN(rapid.Custom(genOp), 8, 90).Draw(t, "ops"),
+		Ops:     rapid.SliceOfN(rapid.Custom(genOp), nops, 90).Draw(t, "ops"),
 	}
 }
 
